@@ -292,14 +292,28 @@ func checkSetIsIota(w *World, r *Result) {
 			return ok && c.truth && strings.HasSuffix(fullName(calleeOf(info, call)), "(*Enum).IsInteger") || (ok && c.truth && strings.HasSuffix(fullName(calleeOf(info, call)), "analysis.Enum).IsInteger"))
 		})
 		r.cond(intOK, "PTH-C10a", name, "flag => integer-backed", pos, "dominated by `if !e.IsInteger() { return }`", "IsIota can be set for an enum that is not integer-backed")
-		// (2) gap test: len(seen) / counter compared with max+1
+		// (2) gap test: a count compared with M+1, M being a running maximum of the member values (a local that the
+		// member loop raises to the value: `if M < v { M = v }`, `M = max(M, v)`)
+		maxVars := runningMaxVars(info, fi.Decl, loop, valVar)
 		gapOK := has(func(c pcond) bool {
-			be, ok := c.expr.(*ast.BinaryExpr)
-			if !ok {
+			be, ok := ast.Unparen(c.expr).(*ast.BinaryExpr)
+			if !ok || !((be.Op == token.EQL && c.truth) || (be.Op == token.NEQ && !c.truth)) {
 				return false
 			}
-			s := es(be)
-			return strings.Contains(s, "max") && strings.Contains(s, "+ 1") || strings.Contains(s, "max+1")
+			found := false
+			ast.Inspect(be, func(x ast.Node) bool {
+				if add, ok := x.(*ast.BinaryExpr); ok && add.Op == token.ADD {
+					for _, pr := range [][2]ast.Expr{{add.X, add.Y}, {add.Y, add.X}} {
+						if id := identOf(pr[0]); id != nil && maxVars[objOf(info, id)] {
+							if tv := info.Types[pr[1]]; tv.Value != nil && tv.Value.ExactString() == "1" {
+								found = true
+							}
+						}
+					}
+				}
+				return true
+			})
+			return found
 		})
 		r.cond(gapOK, "PTH-C10a", name, "flag => no gap (count == max+1)", pos, "dominated by the comparison of the number of exported values with max+1", "no gap test against max+1 dominates the store: enums with holes are flagged iota-like")
 		// (3) sort precedes the store in the same statement list, nothing but the sort in between
@@ -543,10 +557,10 @@ func checkEnumConsumers(w *World, r *Result) {
 			Undecided("%s: no loop over Members", q)
 		}
 		v := objOf(info, identOf(loop.Value))
-		guards := leadingGuards(info, loop.Body, map[types.Object]string{v: "$m"})
-		r.cond(len(guards) == 1 && guards[0] == "!($m.Const.Exported())", "AGR-C10b", fi.Name, "positional consumer skips exactly the unexported constants", w.Pos(loop.Pos()),
-			"the loop starts with `if !m.Const.Exported() { continue }`: the same population setIsIota counts",
-			"the loop's leading filter is {"+strings.Join(guards, ", ")+"} instead of exactly !Const.Exported(): positions no longer correspond to the values the iota flag was decided on")
+		guards, uniform, nacc := loopFilter(info, fi.Decl, loop, map[types.Object]string{v: "$m"})
+		r.cond(nacc > 0 && uniform && len(guards) == 1 && guards[0] == "$m.Const.Exported()", "AGR-C10b", fi.Name, "positional consumer skips exactly the unexported constants", w.Pos(loop.Pos()),
+			"an entry is added exactly for the members with Const.Exported(): the same population setIsIota counts",
+			"the loop adds an entry under {"+strings.Join(guards, ", ")+"} instead of exactly Const.Exported(): positions no longer correspond to the values the iota flag was decided on")
 	}
 }
 
@@ -695,4 +709,47 @@ func checkSelectorPrefix(w *World, r *Result) {
 	r.cond(!endsWithSep || hasEquality, "AGR-C10p", ns.Name, "prefix and prefix test agree", w.Pos(at.Pos()),
 		"the prefix has no trailing separator (or the test also accepts the path equal to it)",
 		"the prefix now ends with `/` while ignorePath still only tests strings.HasPrefix(path, prefix): the package whose path is exactly <domain>/<org> (the module's root package) no longer matches, is skipped by the walk, and the enums and unions it declares are analysed as plain named types")
+}
+
+// runningMaxVars returns the locals of fn that the loop raises to val: assigned val under a guard `M < val` /
+// `val > M`, or assigned max(M, val).
+func runningMaxVars(info *types.Info, fn *ast.FuncDecl, loop *ast.RangeStmt, val types.Object) map[types.Object]bool {
+	out := map[types.Object]bool{}
+	isVal := func(e ast.Expr) bool { id := identOf(e); return id != nil && val != nil && objOf(info, id) == val }
+	ast.Inspect(loop.Body, func(x ast.Node) bool {
+		as, ok := x.(*ast.AssignStmt)
+		if !ok || len(as.Lhs) != 1 || len(as.Rhs) != 1 || as.Tok != token.ASSIGN {
+			return true
+		}
+		id := identOf(as.Lhs[0])
+		if id == nil {
+			return true
+		}
+		m := objOf(info, id)
+		isM := func(e ast.Expr) bool { i := identOf(e); return i != nil && objOf(info, i) == m }
+		if call, ok := ast.Unparen(as.Rhs[0]).(*ast.CallExpr); ok && len(call.Args) == 2 {
+			if f, ok := call.Fun.(*ast.Ident); ok && f.Name == "max" {
+				if _, isBuiltin := info.Uses[f].(*types.Builtin); isBuiltin && ((isM(call.Args[0]) && isVal(call.Args[1])) || (isM(call.Args[1]) && isVal(call.Args[0]))) {
+					out[m] = true
+				}
+			}
+			return true
+		}
+		if !isVal(as.Rhs[0]) {
+			return true
+		}
+		for _, c := range pathConds(fn, as) {
+			be, ok := c.expr.(*ast.BinaryExpr)
+			if !ok || c.loop {
+				continue
+			}
+			lt := (be.Op == token.LSS || be.Op == token.LEQ) && isM(be.X) && isVal(be.Y)
+			gt := (be.Op == token.GTR || be.Op == token.GEQ) && isVal(be.X) && isM(be.Y)
+			if c.truth && (lt || gt) {
+				out[m] = true
+			}
+		}
+		return true
+	})
+	return out
 }
